@@ -504,7 +504,11 @@ func c16RoundTrip(c *Ctx) {
 func c16Views(c *Ctx, sx *symx.Ctx) {
 	r := c.R
 	// once-per-entry counting in GetTopQueries / getUniqueQueries
-	for _, spec := range []struct{ meth, what string }{{"GetTopQueries", "frequency"}, {"getUniqueQueries", "unique"}} {
+	uniqueFn := "getUniqueQueries"
+	if c.P.Func("internal/history", "SearchHistory", uniqueFn) == nil {
+		uniqueFn = "GetStats" // the distinct-query table is built where it is used
+	}
+	for _, spec := range []struct{ meth, what string }{{"GetTopQueries", "frequency"}, {uniqueFn, "unique"}} {
 		fn := c.P.Func("internal/history", "SearchHistory", spec.meth)
 		fk := "history.(*SearchHistory)." + spec.meth
 		if !r.Anchor("O-5", fk, fn != nil) {
@@ -559,6 +563,8 @@ func c16Views(c *Ctx, sx *symx.Ctx) {
 				if b.Kind() == types.Bool {
 					return ssau.IsConstBool(mu.Value, true)
 				}
+			case *types.Struct:
+				return b.NumFields() == 0 // a set: m[q] = struct{}{}
 			}
 			return false
 		}
@@ -598,6 +604,19 @@ func c16Views(c *Ctx, sx *symx.Ctx) {
 				if call, isCall := st.Val.(*ssa.Call); isCall && ssau.CallName(call) == "builtin.len" {
 					if inner, isCall := call.Common().Args[0].(*ssa.Call); isCall && strings.HasSuffix(ssau.CallName(inner), "getUniqueQueries") {
 						ok = true
+					}
+					// or the size of a set built here, keyed by each entry's Query
+					// (its once-per-entry update is checked above)
+					if mk, isMk := call.Common().Args[0].(*ssa.MakeMap); isMk {
+						for _, ref := range *mk.Referrers() {
+							if mu, isMu := ref.(*ssa.MapUpdate); isMu && mu.Map == ssa.Value(mk) {
+								if u, isU := mu.Key.(*ssa.UnOp); isU {
+									if fa, isFA := u.X.(*ssa.FieldAddr); isFA && ssau.FieldName(fa) == "Query" {
+										ok = true
+									}
+								}
+							}
+						}
 					}
 				}
 				r.Check(ok, "O-5", "history.(*SearchHistory).GetStats#unique-is-len-unique", c.P.Pos(st.Pos()), "UniqueQueries = len(getUniqueQueries())", "UniqueQueries is not the size of the unique-query table")
@@ -670,13 +689,7 @@ func c16Views(c *Ctx, sx *symx.Ctx) {
 				return
 			}
 			// guarded by seen[query] == false
-			guarded := false
-			for _, d := range ssau.TransitiveControlDeps(cd, call.Block()) {
-				lk, ok := d.If().Cond.(*ssa.Lookup)
-				if ok && !d.Then && f.E(lk.Index) == f.E(qv) {
-					guarded = true
-				}
-			}
+			guarded := absentGuarded(cd, call.Block(), func(v ssa.Value) bool { return f.E(v) == f.E(qv) })
 			r.Check(guarded, "O-5", key, c.P.Pos(call.Pos()), "appends Entries[i].Query only when not yet seen", "a query is appended without the `seen` test: recent queries are no longer distinct")
 		})
 		r.Floor("O-5", "appends in GetRecentQueries", nApp, 1)
